@@ -23,6 +23,7 @@ STYLES = [
     ("multi", "/* {m} alpha\n * beta gamma\n */", False),
     ("custom", "//- {m} note", True),
     ("tight", "/*{m}*/", False),
+    ("uni", "// {m} gr\u00fc\u00dfe \u00b5m \u4e16\u754c note", True),
 ]
 CLASSES = ["items", "stmts", "fields", "variants", "arms", "params", "args", "instmt"]
 MARK = re.compile(r"cq\d+x")
@@ -137,6 +138,7 @@ def run(tier, seed, replay=None):
     core.build(bins=False)
     ck = comment_kind(v, tier)
     pts = universe.points(tier, seed, files_quick=400, narrow=True)
+    pts += universe.option_points(tier, seed)
     files = {}
     for (pid, name, text, opts) in pts:
         files.setdefault(name, text)
@@ -195,6 +197,38 @@ def run(tier, seed, replay=None):
                                      "want": ["lex"], "_pid": pid, "_name": None, "_rw": False,
                                      "_planted": [{"m": "cq0x", "cls": sl["cls"], "how": sl["how"],
                                                    "style": st[0], "text": c}]})
+        gen_slots = [(g, (r.get("slots") or {}).get("slots") or []) for g, r in zip(gens, gsl)]
+        for opt, vals in universe.OPTION_SWEEP:
+            for val in vals:
+                # one instance (padding chosen by a hash) of EVERY template family under every
+                # option value
+                fams = {}
+                for g in gen_slots:
+                    fams.setdefault(g[0][0].rsplit("_", 1)[0], []).append(g)
+                chosen = []
+                for fam, gs in sorted(fams.items()):
+                    h = core.fnv(f"{opt}={val}:{fam}".encode())
+                    chosen.append(gs[h % len(gs)])
+                for (gname, gtext), ss in chosen:
+                    tb = gtext.encode()
+                    for si, sl in enumerate(ss):
+                        hp = core.fnv(f"{opt}={val}:{gname}:{si}".encode())
+                        for st in (STYLES[hp % len(STYLES)], STYLES[-1]):
+                            if sl["how"] == "eol" and not st[2] and st[0] != "block":
+                                continue
+                            c = st[1].format(m="cq0x")
+                            ins = (" " + c + "\n") if sl["how"] == "eol" else \
+                                ((c + "\n") if st[2] else (c + " "))
+                            new = (tb[:sl["off"]] + ins.encode() + tb[sl["off"]:]).decode()
+                            o = {"max_width": 100, "style_edition": universe.STYLE_EDITIONS[hp % 3],
+                                 opt: val}
+                            jobs.append({"id": len(jobs), "src": new, "opts": o, "want": ["lex"],
+                                         "_pid": f"{gname}@opt.{opt}={val}:slot{si}:{st[0]}",
+                                         "_name": None,
+                                         "_rw": opt in ("wrap_comments", "normalize_comments"),
+                                         "_planted": [{"m": "cq0x", "cls": sl["cls"],
+                                                       "how": sl["how"], "style": st[0],
+                                                       "text": c}]})
         res = ucore.run_jobs([{k: j[k] for k in j if not k.startswith("_")} for j in jobs], sc,
                              timeout=30)
         recs, meta = [], []
